@@ -207,9 +207,7 @@ func (e *Engine) verifyContract(c *Contract) (res *UnitResult) {
 	if len(states) == 1 {
 		exit = states[0]
 	}
-	for i := len(fr.defers) - 1; i >= 0; i-- {
-		fr.call(exit, fr.defers[i])
-	}
+	exit = fr.runDefers(exit)
 	// ensures
 	names := map[string]Val{}
 	// locals of the function at exit (a local never declared on a path reads as its zero value);
@@ -242,6 +240,19 @@ func (e *Engine) verifyContract(c *Contract) (res *UnitResult) {
 			continue
 		}
 		u.oblige("ensures:"+lab, "ensures", en.Src, fr.pos(fd.Pos()), exit.pc, t)
+	}
+	// lock balance: every mutex hold counter is back at its entry value
+	{
+		var mks []string
+		for k := range x.mutexKeys {
+			mks = append(mks, k)
+		}
+		sort.Strings(mks)
+		for _, k := range mks {
+			q := "m$q" + fmt.Sprint(x.nextQ())
+			u.oblige("lock-balance:"+strings.TrimPrefix(k, "mutex:"), "lock-balance", "every mutex the function locks is released on every return path", fr.pos(fd.Pos()), exit.pc,
+				fmt.Sprintf("(forall ((%s Int)) (= (select %s %s) (select %s %s)))", q, x.getHeap(exit, k), q, x.heapInit(k), q))
+		}
 	}
 	if _, all := mods["*"]; !all {
 		var keys []string
